@@ -415,7 +415,9 @@ def determinism_selftest(cases, n=2000):
     report = []
     ok = True
     first = first_run_seed()
-    for label, binary, prop, tier, extra in cases:
+    for case in cases:
+        label, binary, prop, tier, extra = case[:5]
+        first = first_run_seed() + (case[5] if len(case) > 5 else 0)  # optional offset into the seed range
         out = scratch_dir("selftest-" + label)
         a = run_batch(binary, prop, tier, first, n, out, workers=16, extra=extra)
         b = run_batch(binary, prop, tier, first, n, out, workers=3, extra=extra)
